@@ -29,7 +29,7 @@ ASSUMPTIONS = [
   "only the first step at which the two executions differ is judged (later steps amplify round-off)",
   "user inputs are not changed between step1 and step2; no callbacks are installed",
 ]
-BUDGET = {"quick": 150, "thorough": 1200}
+BUDGET = {"quick": 240, "thorough": 1200}
 
 INTEGRATORS = ("Euler", "implicitfast", "implicit", "RK4")
 INT_ENUM = {"Euler": 0, "RK4": 1, "implicit": 2, "implicitfast": 3}
